@@ -1,9 +1,54 @@
-"""C14 - see lib/props/_client.py (shared case generator, model/implementation runs, predicates)."""
+"""C14 - see lib/props/_client.py (shared case generator, model/implementation runs, predicates); plus
+calls during which the clock moves on at every reading (harness `ordv`): a call whose monotonic reading
+precedes the record's as-of by more than the tolerated blur returns the causality error - it does not
+wait for the clock to catch up and answer from the record after all."""
+import random
+import common as c
 from props import _client
+
+NS = 10 ** 9
+
+
+def moving_clock_part(res):
+    rng = random.Random(res.seed * 17 + 14)
+    lines, metas = [], []
+    for _ in range(120 if res.tier == "quick" else 5000):
+        mono = rng.randrange(10, 10 ** 6) * NS + rng.randrange(NS)
+        real = rng.randrange(10 ** 9) * NS + rng.randrange(NS)
+        step = rng.choice([1000, 10 ** 5, 10 ** 6, 5 * 10 ** 6])           # the clock moves this far at every reading
+        ahead = rng.choice([1001, 1500, 10 ** 4, 10 ** 6, 3 * 10 ** 6, 9 * 10 ** 6, NS, -5, -999, -1000 + step])
+        # the first monotonic reading of the call is the second reading (realtime comes first): mono + step
+        as_of = mono + step + ahead
+        ds = [step] * 12
+        a, r, mo = _client.ts(as_of), _client.ts(real), _client.ts(mono)
+        rec = "%d %d %d 0 %d %d %d" % (a[0], a[1], a[0] + 1000, rng.randrange(10 ** 6), rng.choice([1000, 50000]), rng.choice([1, 2]))
+        lines.append("ordv %s %d %d %d %d %d %s" % (rec, r[0], r[1], mo[0], mo[1], len(ds), " ".join(map(str, ds))))
+        metas.append((ahead, step))
+    outs = c.run_lines_hang_aware(c.build_harness("debug")[0], lines, "- hang")
+    bad = []
+    for ln, (ahead, step), o in zip(lines, metas, outs):
+        res.evaluations += 1
+        res.count("gen:clock moving during the call")
+        res.nontriv(ln)
+        order, result = o.split(" ", 1)
+        r = _client.parse_result(result)
+        if r["kind"] == "hang":
+            bad.append({"case": ln, "impl": o, "why": ["the call did not return within 5 s under a clock that moves at every reading"]})
+        elif ahead > 1000 and r["kind"] != "causality":
+            bad.append({"case": ln, "impl": o, "why": ["the monotonic reading of the call (the second reading: %s) precedes the record's as-of by %d ns, more than the tolerated blur: "
+                                                        "the call must return the causality error; it read the clocks %d times and returned %s" % (order[:2], ahead, len(order), result)]})
+        elif ahead <= 999 and r["kind"] == "causality":
+            bad.append({"case": ln, "impl": o, "why": ["the monotonic reading precedes as-of by %d ns only (within the blur) and the call returned the causality error" % ahead]})
+    res.oblige("calls under a clock that moves at every reading: causality error iff the call's monotonic reading precedes as-of by more than the blur (%d calls)" % len(lines), not bad)
+    if bad:
+        res.violation({"property": "C14", "kind": "input", "case": bad[0], "others": [b["case"] for b in bad[1:4]],
+                       "predicate": "monotonic reading before as-of by more than the blur => causality error, not an interval",
+                       "how_to_replay": "./check C12 --replay <this file>"})
 
 
 def run(res, proofs_ok, proofs_why):
     _client.run_property("C14", res, proofs_ok, proofs_why)
+    moving_clock_part(res)
 
 
 def replay(res, path):
